@@ -13,6 +13,7 @@ FUNCTIONS = ["src/pwl/impl_infeasible_elim.rs", "src/pwl/node.rs", "src/pwl/impl
              "src/pwl/impl_ops.rs", "src/pwl/impl_reduction.rs"]
 FR = Fraction
 SLACK = CONTAINS_TOL * (1 + FR(1, 10**6))
+ROUND = FR(16, 2**53)
 
 
 def make_cases(chk):
@@ -99,7 +100,9 @@ def check_history(args):
                     for c in conds:
                         a, b = c.closed(0)
                         d = b - dot(a, wx)
-                        if d < -SLACK:
+                        # 1e-8 containment tolerance plus the rounding budget of evaluating the row in f64 at this point
+                        budget = SLACK + ROUND * (abs(b) + sum(abs(x * y) for x, y in zip(a, wx)))
+                        if d < -budget:
                             out["viol"].append({"kind": "witness", "node": idx, "export": ei, "after": label, "witness": wh,
                                                 "what": "stored witness %s violates path condition %s by %.3g" % (w, c, float(-d))})
                             break
@@ -187,7 +190,7 @@ def main():
             x = [FR(float_of_hex(pts[r_][k])) for r_ in range(len(pts))]
             bad = None
             for a, b in zip(c["A"], c["b"]):
-                if b - dot(a, x) < -SLACK:
+                if b - dot(a, x) < -(SLACK + ROUND * (abs(b) + sum(abs(p * q) for p, q in zip(a, x)))):
                     bad = (a, b)
                     break
             if bad is None:
